@@ -85,30 +85,38 @@ class AnchorLost(Exception):
     pass
 
 
-def inject_kani(scratch: Scratch, only_crates: set[str] | None = None) -> list[dict]:
-    """Append every contracts/kani/*.inject to the real file it names (a__b__c.rs.inject ->
-    a/b/c.rs).  No existing line of the real file is modified.  Lines in the inject file of
-    the form `//@anchor <regex>` must match the real file exactly once, otherwise the code has
-    changed shape under the contract and the unit is UNDECIDED (never an alarm)."""
+def inject_kani(scratch: Scratch, only_crates: set[str] | None = None) -> tuple[list[dict], dict[str, str]]:
+    """Append contracts/kani/*.inject to the real file each names (a__b__c.rs.inject -> a/b/c.rs).
+    No existing line of the real file is modified.  Lines of the form `//@anchor <regex>` in the
+    inject file must match the real file exactly once; otherwise the code has changed shape under
+    the contract: that file is NOT injected and its units are UNDECIDED (never an alarm).
+    Returns (injected, lost) where lost maps file -> reason."""
     done = []
+    lost: dict[str, str] = {}
     for inj in sorted((CONTRACTS / "kani").glob("*.inject")):
         rel = inj.name[: -len(".inject")].replace("__", "/")
         crate = rel.split("/")[0]
         if only_crates is not None and crate not in only_crates:
             continue
         target = scratch.repo / rel
-        if not target.exists():
-            raise AnchorLost(f"{rel}: file no longer exists")
+        if not (REPO / rel).exists():
+            lost[rel] = "file no longer exists"
+            continue
         real = (REPO / rel).read_text()
         text = inj.read_text()
+        bad = None
         for m in re.finditer(r"^//@anchor (.+)$", text, re.M):
             pat = m.group(1).strip()
             n = len(re.findall(pat, real, re.M))
             if n != 1:
-                raise AnchorLost(f"{rel}: anchor /{pat}/ matches {n} times (expected 1)")
+                bad = f"anchor /{pat}/ matches {n} times (expected 1)"
+                break
+        if bad:
+            lost[rel] = bad
+            continue
         target.write_text(real + "\n" + text)
         done.append({"file": rel, "inject": str(inj.relative_to(VERIF)), "lines_appended": text.count("\n")})
-    return done
+    return done, lost
 
 
 # --------------------------------------------------------------------------------------
